@@ -833,16 +833,31 @@ pub fn validate(schema: &Value, inst: &J) -> Verdict {
     Validator::new(schema).validate(inst)
 }
 
-/// second opinion: the `jsonschema` crate with formats asserted. `None` = cannot apply.
-pub fn crate_valid(schema: &Value, inst: &J) -> Option<bool> {
-    let v = inst.to_value()?;
-    let mut s = schema.clone();
-    if let Some(o) = s.as_object_mut() {
-        o.remove("x-guidance");
-        o.entry("$schema").or_insert(Value::String("https://json-schema.org/draft/2020-12/schema".into()));
+/// second opinion: the `jsonschema` crate with formats asserted, compiled once per schema
+/// (its validators for recursive `$ref`s are never freed - reference cycles - so builds are
+/// kept to one per case)
+pub struct Second {
+    v: Option<jsonschema::Validator>,
+}
+
+impl Second {
+    pub fn new(schema: &Value) -> Second {
+        let mut s = schema.clone();
+        if let Some(o) = s.as_object_mut() {
+            o.remove("x-guidance");
+            o.entry("$schema").or_insert(Value::String("https://json-schema.org/draft/2020-12/schema".into()));
+        }
+        Second { v: jsonschema::options().should_validate_formats(true).build(&s).ok() }
     }
-    let val = jsonschema::options().should_validate_formats(true).build(&s).ok()?;
-    Some(val.is_valid(&v))
+    /// `None` = cannot apply (schema not compilable there, duplicate keys, numbers beyond f64)
+    pub fn valid(&self, inst: &J) -> Option<bool> {
+        let v = inst.to_value()?;
+        self.v.as_ref().map(|x| x.is_valid(&v))
+    }
+}
+
+pub fn crate_valid(schema: &Value, inst: &J) -> Option<bool> {
+    Second::new(schema).valid(inst)
 }
 
 #[cfg(test)]
